@@ -28,9 +28,26 @@ Judge(r) ==
   ELSE IF ~NoReAsk(r) THEN "the follow-up run asks again for something already given"
   ELSE ""
 
+(***************************************************************************)
+(* C13 on complete sessions (kind "none"): solve with prompts and          *)
+(* write-back, then the same command on the file it wrote.  `returned`:    *)
+(* the first run ended normally; `same`: both runs wrote the same solution.*)
+(***************************************************************************)
+Judge13(r) ==
+  IF ~r.returned THEN ""                                      \* the run stopped with an error: C20's business
+  ELSE IF ~WellFormed(r) THEN "the written-back input file is not well-formed"
+  ELSE IF ~KeepsFile(r) THEN "write-back changed a value the file held"
+  ELSE IF ~KeepsAnswers(r) THEN "an answer was not written back"
+  ELSE IF r.rerun_asks # <<>> THEN "the re-run on the written-back file asks again"
+  ELSE IF ~r.same THEN "the re-run on the written-back file gives another solution"
+  ELSE ""
+
 VARIABLE k
 Init == k = 0
 Next == /\ k < Len(Recs) /\ k' = k + 1
         /\ LET m == Judge(Recs[k + 1]) IN m = "" \/ PrintT("C20|" \o ToString(Recs[k + 1].sid) \o "|" \o m \o "|")
 Spec == Init /\ [][Next]_k
+Next13 == /\ k < Len(Recs) /\ k' = k + 1
+          /\ LET m == Judge13(Recs[k + 1]) IN m = "" \/ PrintT("C13|" \o ToString(Recs[k + 1].sid) \o "|" \o m \o "|")
+Spec13 == Init /\ [][Next13]_k
 =============================================================================
